@@ -41,6 +41,38 @@ Theorem C09_no_lint_in_range : forall neg tok t,
   vt_min t <= math_value neg tok <= vt_max t.
 Proof. exact no_lint_in_range. Qed.
 
+(* The same on either target (usize_bits = 32 for WebAssembly, 64 for the host): the lint is raised
+   iff the value is outside the range the type has ON THAT TARGET (lint_max: 2^32-1 for usize under
+   --wasm; D54, repaired), and a literal that raises none lies in that range. *)
+Theorem C09_lint_characterisation_on_target : forall ub neg tok t,
+  ub = 32 \/ ub = 64 ->
+  0 <= magnitude tok < 2 ^ 128 -> vt_is_integral t = true ->
+  let l := fst (source_literal true neg tok) in
+  admissible l t ->
+  (lint_on ub l t = true <-> ~ (vt_min t <= math_value neg tok <= lint_max ub t) \/ false_positive_on ub neg tok t).
+Proof. exact lint_on_characterisation. Qed.
+
+Theorem C09_no_lint_in_target_range : forall ub neg tok t,
+  ub = 32 \/ ub = 64 ->
+  0 <= magnitude tok < 2 ^ 128 -> vt_is_integral t = true ->
+  admissible (fst (source_literal true neg tok)) t ->
+  lint_on ub (fst (source_literal true neg tok)) t = false ->
+  vt_min t <= math_value neg tok <= lint_max ub t.
+Proof. exact no_lint_in_range_on. Qed.
+
+(* lint_max is the largest value of the width the generator gives the type on that target *)
+Theorem C09_lint_range_is_generated_width : forall ub t,
+  ub = 32 \/ ub = 64 -> vt_is_integral t = true -> vt_is_signed t = false ->
+  lint_max ub t = 2 ^ vt_bits ub t - 1.
+Proof. exact lint_max_is_target_range. Qed.
+
+(* the pinned commit applied the 64-bit range on the 32-bit target *)
+Theorem C09_pinned_wasm_usize_refuted :
+  lint_on 64 (fst (source_literal true false (TNaked (2 ^ 32)))) Usize = false /\
+  ~ (math_value false (TNaked (2 ^ 32)) <= 2 ^ vt_bits 32 Usize - 1) /\
+  lint_on 32 (fst (source_literal true false (TNaked (2 ^ 32)))) Usize = true.
+Proof. exact lint_wasm_usize_pinned_refuted. Qed.
+
 Theorem C09_pinned_i128_min_refuted :
   lint (fst (source_literal false true (TNaked (2 ^ 127)))) Int128 = true /\
   vt_min Int128 <= math_value true (TNaked (2 ^ 127)) <= vt_max Int128.
@@ -114,3 +146,6 @@ Print Assumptions C09_lints_are_per_declaration.
 Print Assumptions C09_pinned_linter_skips_return_value_refuted.
 Print Assumptions C09_pinned_linter_skips_condition_refuted.
 Print Assumptions C09_linter_without_parentheses_refuted.
+Print Assumptions C09_lint_characterisation_on_target.
+Print Assumptions C09_no_lint_in_target_range.
+Print Assumptions C09_pinned_wasm_usize_refuted.
